@@ -146,6 +146,7 @@ def run(rep, tier):
         ok = c05.clause_a(facts, rep)
         c05.clause_b(facts, rep, ok)
         c05.clause_b2(facts, rep)
+        c05.clause_pair_value(facts, rep, tier)
         c05.clause_c(facts, rep, tier)
     # elements must not be skipped as white space: table, mask width and mask composition of both kernels (shared with C15 / C01)
     from . import c15
